@@ -2,7 +2,10 @@
 
 package simrt
 
-import "runtime"
+import (
+	"runtime"
+	"unsafe"
+)
 
 // RaceBuild reports whether the race detector is compiled in.
 const RaceBuild = true
@@ -12,3 +15,9 @@ func raceDisable() { runtime.RaceDisable() }
 
 //go:norace
 func raceEnable() { runtime.RaceEnable() }
+
+//go:norace
+func raceAcquire(p unsafe.Pointer) { runtime.RaceAcquire(p) }
+
+//go:norace
+func raceReleaseMerge(p unsafe.Pointer) { runtime.RaceReleaseMerge(p) }
